@@ -3,7 +3,9 @@
 d=$1; p=${2:-$(python3 -c "import json;print(json.load(open('$d/meta.json'))['property'])")}
 cd /verif
 [ -n "$(git -C /repo status --porcelain)" ] && { echo "repo dirty"; exit 2; }
+rm -rf /var/tmp/ev.bak; cp -r /verif/evidence /var/tmp/ev.bak   # evidence written while /repo is mutated must not survive
 git -C /repo apply $(realpath $d/patch.diff) || { echo "apply failed"; exit 2; }
 out=$(./check $p 2>&1); rc=$?
 git -C /repo checkout -- .
+rm -rf /verif/evidence; mv /var/tmp/ev.bak /verif/evidence
 echo "$d $p rc=$rc :: $(echo "$out" | grep -E "VIOLATION|UNDECIDED|^OK" | head -2 | cut -c1-400)"
